@@ -39,6 +39,9 @@ def parseItem (tok : String) : Option Item :=
   | ["wB", b] => do let b ← b.toNat?; pure (.op (.writeByte (UInt8.ofNat b)))
   | ["wy", h] => (hexArg h).map fun l => .op (.writeBytes l)
   | ["ws", l] => (binArg l).map fun l => .op (.writeBitString (ofBits l))
+  | ["ws", l, k] => do
+    let l ← binArg l; let k ← k.toNat?
+    pure (.op (.writeBitString { ofBits l with rCursor := k }))   -- a source of which k bits have been read
   | ["wU", v, n] => do let v ← v.toInt?; let n ← n.toInt?; pure (if n < 0 then .zop (.writeBigUint v n) else .op (.writeBigUint v n.toNat))
   | ["wI", v, n] => do let v ← v.toInt?; let n ← n.toInt?; pure (if n ≤ 0 then .zop (.writeBigInt v n) else .op (.writeBigInt v n.toNat))
   | ["wn", n] => do let n ← n.toNat?; pure (.op (.writeUnary n))
@@ -59,6 +62,9 @@ def parseItem (tok : String) : Option Item :=
   | ["rc"] => some (.op .resetCounter)
   | ["gr", n] => do let n ← n.toNat?; pure (.op (.grow n))
   | ["ap", l] => (binArg l).map fun l => .op (.append (ofBits l))
+  | ["ap", l, k] => do
+    let l ← binArg l; let k ← k.toNat?
+    pure (.op (.append { ofBits l with rCursor := k }))
   | ["cp"] => some (.op .copy)
   | ["fh"] => some .fift
   | ["gt"] => some .topUp
